@@ -517,3 +517,35 @@ Fixpoint guarded (s : heap) (h : list op) : Prop :=
   end.
 Definition final (s : heap) (h : list op) : heap := fst (run NH by_id s h).
 End Guards.
+
+(* ---- C14: what the collections of a history have reported (ghost state).
+   collect() returns a Python set of nodes, which keeps ONE representative per
+   class of nodes that hash alike and are == ; which one is not specified:
+   [rp s L n] is the representative kept for n when the nodes of L are put
+   in the set in state s (the identity is one such oracle).  A report is
+   (representative, hash, node it stands for). *)
+Definition hash_of (s : heap) (n : nat) : bytes :=
+  match nth_error s n with
+  | Some x => match cached x with Some h => h | None => [] end
+  | None => []
+  end.
+Definition report := (nat * bytes * nat)%type.
+Definition set_oracle := heap -> list nat -> nat -> nat.
+Definition oracle_ok (rp : set_oracle) : Prop :=
+  forall s L n, In n L ->
+    In (rp s L n) L /\ node_eqb (S (length s)) s (rp s L n) n = true /\ hash_of s (rp s L n) = hash_of s n.
+Definition reports (rp : set_oracle) (s' : heap) (o : out) : list report :=
+  match o with
+  | OutNodes L => map (fun n => (rp s' L n, hash_of s' n, n)) L
+  | _ => []
+  end.
+Section Ghost.
+Variable NH : bytes -> list entry -> bytes.
+Variable by_id : bool.
+Variable rp : set_oracle.
+Fixpoint grun (s : heap) (rep : list report) (h : list op) : heap * list report :=
+  match h with
+  | [] => (s, rep)
+  | o :: h' => let '(s1, x) := step NH by_id s o in grun s1 (rep ++ reports rp s1 x) h'
+  end.
+End Ghost.
